@@ -11,8 +11,8 @@
 (***************************************************************************)
 EXTENDS AudioPacket, SetupParse, TLC, Json
 CONSTANTS Family        \* "sizes" | "shapes" | "mutations"
-VARIABLES c, done
-vars == <<c, done>>
+VARIABLES c, done, cw, cwt      \* cw / cwt: the codeword tables of the books of the case and of its twin, computed once per case (TLC would re-derive them at every codeword otherwise)
+vars == <<c, done, cw, cwt>>
 
 Full(k, dim) == [dim |-> dim, entries |-> Pow2(k), ordered |-> 0, sparse |-> 0, lens |-> [i \in 1..Pow2(k) |-> k], maptype |-> 0, qmin |-> 0, qdelta |-> 0, qbits |-> 1, qseq |-> 0, quant |-> <<>>]
 Lattice(k, dim) == [Full(k, dim) EXCEPT !.maptype = 1, !.qmin = PackedInt(0), !.qdelta = PackedInt(1), !.qbits = 2, !.quant = [i \in 1..QuantVals1(Pow2(k), dim) |-> (i - 1) % 4]]
@@ -109,6 +109,17 @@ ResSetup(ch, e0, e1, rt, psize, coupled) ==
    floors |-> << [type |-> 1, parts |-> <<0, 1>>, cdim |-> <<2, 1>>, csubs |-> <<0, 1>>, cbook |-> <<0, 4>>, csub |-> << <<0>>, <<1, -1>> >>, mult |-> 2, rb |-> 5, posts |-> <<16, 8, 24>>] >>,
    residues |-> << [type |-> rt, begin |-> 0, end |-> Pow2(e1), psize |-> psize, nclass |-> 2, gbook |-> 1, cascade |-> <<1, 2>>, rbooks |-> <<2, 3>>] >>,
    maps |-> << [submaps |-> 1, coupling |-> IF coupled THEN << <<0, 1>> >> ELSE <<>>, mux |-> <<>>, sfloor |-> <<0>>, sres |-> <<0>>] >>, modes |-> Modes]
+\* floor 1 configurations beyond the plain one: every multiplier, range bits from 4 to 8 (posts far beyond the half block of 32 / 64), one to three classes with
+\* one to four values each, class sub-books with unused slots (value 0) and books of 2 .. 64 entries (books 5 and 6 are appended to the set-up), up to 20 posts
+FloorShapes == <<
+  [type |-> 1, parts |-> <<0, 0, 0>>, cdim |-> <<2>>, csubs |-> <<0>>, cbook |-> <<0>>, csub |-> << <<5>> >>, mult |-> 1, rb |-> 6, posts |-> <<32, 16, 48, 8, 24, 40>>],
+  [type |-> 1, parts |-> <<0, 1, 2>>, cdim |-> <<1, 2, 3>>, csubs |-> <<0, 1, 2>>, cbook |-> <<0, 4, 0>>, csub |-> << <<6>>, <<5, -1>>, <<0, 5, -1, 6>> >>, mult |-> 3, rb |-> 7, posts |-> <<64, 32, 96, 16, 48, 80>>],
+  [type |-> 1, parts |-> <<0>>, cdim |-> <<4>>, csubs |-> <<0>>, cbook |-> <<0>>, csub |-> << <<6>> >>, mult |-> 4, rb |-> 4, posts |-> <<8, 4, 12, 2>>],
+  [type |-> 1, parts |-> <<0, 0, 0, 0, 0>>, cdim |-> <<4>>, csubs |-> <<1>>, cbook |-> <<4>>, csub |-> << <<5, 6>> >>, mult |-> 2, rb |-> 7,
+   posts |-> <<64, 32, 96, 16, 48, 80, 112, 8, 24, 40, 56, 72, 88, 104, 120, 4, 12, 20, 28, 36>>],
+  [type |-> 1, parts |-> <<1, 0>>, cdim |-> <<2, 2>>, csubs |-> <<2, 0>>, cbook |-> <<3, 0>>, csub |-> << <<-1, -1, -1, -1>>, <<5>> >>, mult |-> 1, rb |-> 5, posts |-> <<31, 1, 30, 2>>],
+  [type |-> 1, parts |-> <<0, 0>>, cdim |-> <<3>>, csubs |-> <<0>>, cbook |-> <<0>>, csub |-> << <<6>> >>, mult |-> 1, rb |-> 8, posts |-> <<255, 1, 128, 33, 31, 32>>],
+  [type |-> 1, parts |-> <<2, 1, 0, 1, 2>>, cdim |-> <<1, 1, 2>>, csubs |-> <<1, 0, 1>>, cbook |-> <<4, 0, 4>>, csub |-> << <<6, 5>>, <<0>>, <<-1, 6>> >>, mult |-> 2, rb |-> 6, posts |-> <<10, 20, 30, 40, 50, 60, 5>>] >>
 ExplicitVals == [Full(2, 2) EXCEPT !.maptype = 2, !.qmin = PackedInt(0), !.qdelta = PackedInt(1), !.qbits = 3, !.quant = <<0, 1, 1, 3, 2, 2, 3, 5>>]
 \* sequence mode: each component is the running sum of the stored values, restarting at every entry; chosen so that the sums equal ExplicitVals
 SequenceVals == [ExplicitVals EXCEPT !.qseq = 1, !.quant = <<0, 1, 1, 2, 2, 0, 3, 2>>]
@@ -145,15 +156,12 @@ ResCases == { [name |-> "residue-explicit-values", seq |-> TRUE, s |-> [ResSetup
                s |-> [ResSetup(ch, 6, 7, rt, 8, ch = 2) EXCEPT !.floors = << [type |-> 0, order |-> ord, frate |-> 8000, bark |-> 16, ampbits |-> 4, ampdb |-> 100, fbooks |-> fb] >>],
                fls |-> IF ch = 1 THEN << <<1>>, <<1>>, <<0>>, <<1>>, <<1>> >> ELSE << <<1, 1>>, <<1, 0>>, <<0, 1>>, <<0, 0>>, <<1, 1>> >>] :
                 ch \in {1, 2}, rt \in {0, 1, 2}, ord \in {1, 2, 5}, fb \in { <<2>>, <<3, 2>>, <<2, 3, 3>> } } \cup
+            { [name |-> "floor-shapes", seq |-> FALSE, s |-> [ResSetup(ch, 6, 7, 1, 8, FALSE) EXCEPT !.books = @ \o << Full(4, 1), Full(6, 1) >>, !.floors = << FloorShapes[k] >>]] : ch \in {1, 2}, k \in 1..Len(FloorShapes) } \cup
             { [name |-> "residue-dim-not-dividing", seq |-> FALSE, s |-> [ResSetup(ch, 6, 7, rt, 8, FALSE) EXCEPT !.books[3] = Lattice(2, dd[1]), !.books[4] = VarBook(dd[2], 1)]] :
                 ch \in {1, 2}, rt \in {0, 1, 2}, dd \in {<<3, 5>>, <<100, 3>>, <<7, 1000>>, <<16, 12>>} } \cup
             { [name |-> "residue", seq |-> FALSE, s |-> ResSetup(ch, 6, e1, rt, ps, cp)] : ch \in {1, 2}, e1 \in {6, 7}, rt \in {0, 1, 2}, ps \in {4, 8}, cp \in {FALSE, TRUE} }
 Sizes == { [name |-> "sizes", s |-> Base(ch, e0, e1, rt)] : ch \in {1, 2}, e0 \in 6..13, e1 \in 6..13, rt \in {1} }
 Cases == CASE Family = "sizes" -> { x \in Sizes : x.s.e0 <= x.s.e1 } [] Family = "shapes" -> Shapes [] Family = "residue" -> { x \in ResCases : x.s.ch >= 2 \/ x.s.maps[1].coupling = <<>> } [] OTHER -> Mutations
-
-Init == c \in Cases /\ done = FALSE
-Next == ~done /\ done' = TRUE /\ UNCHANGED c
-Spec == Init /\ [][Next]_vars
 
 \* with every packet: what the floor of the LAST channel must decode to (posts after unwrapping, table index per bin)
 FloorOf(s, mode) == s.floors[s.maps[s.modes[mode + 1].map + 1].sfloor[1] + 1]
@@ -166,11 +174,11 @@ FP(s, mode, lw, nw, salt, fl) == [W |-> s.modes[mode + 1].bf, ns |-> 1, f |-> Fu
                                   fit |-> IF fl[s.ch] = 1 /\ LastFloor(s, mode).type = 1 THEN Floor1Fit(s, LastFloor(s, mode), salt + s.ch) ELSE <<>>,
                                   yc |-> IF fl[s.ch] = 1 /\ LastFloor(s, mode).type = 1 THEN Floor1Curve(s, LastFloor(s, mode), salt + s.ch, HalfOf(s, mode)) ELSE <<>>,
                                   rv |-> PacketResidue(s, mode, salt, fl), cv |-> PacketSpectrum(s, mode, salt, fl)]
-WithCW(s0) == s0 @@ [cw |-> [b \in 1..Len(s0.books) |-> Codewords(s0.books[b].lens)]]
-FullAudio(s0, fls) == LET s == WithCW(s0) IN << FP(s, 0, 0, 0, 1, fls[1]), FP(s, 1, 0, 1, 2, fls[2]), FP(s, 1, 1, 0, 3, fls[3]), FP(s, 0, 0, 0, 4, fls[4]), FP(s, 0, 0, 0, 5, fls[5]) >>
+CWOf(s0) == [b \in 1..Len(s0.books) |-> Codewords(s0.books[b].lens)]
+FullAudio(s0, fls) == LET s == s0 @@ [cw |-> cw] IN << FP(s, 0, 0, 0, 1, fls[1]), FP(s, 1, 0, 1, 2, fls[2]), FP(s, 1, 1, 0, 3, fls[3]), FP(s, 0, 0, 0, 4, fls[4]), FP(s, 0, 0, 0, 5, fls[5]) >>
 \* the twin needs the packets only
 FPbits(s, mode, lw, nw, salt, fl) == [W |-> s.modes[mode + 1].bf, ns |-> 1, f |-> FullPacket(s, mode, lw, nw, salt, fl)]
-TwinAudio(s0, fls) == LET s == WithCW(s0) IN << FPbits(s, 0, 0, 0, 1, fls[1]), FPbits(s, 1, 0, 1, 2, fls[2]), FPbits(s, 1, 1, 0, 3, fls[3]), FPbits(s, 0, 0, 0, 4, fls[4]), FPbits(s, 0, 0, 0, 5, fls[5]) >>
+TwinAudio(s0, fls) == LET s == s0 @@ [cw |-> cwt] IN << FPbits(s, 0, 0, 0, 1, fls[1]), FPbits(s, 1, 0, 1, 2, fls[2]), FPbits(s, 1, 1, 0, 3, fls[3]), FPbits(s, 0, 0, 0, 4, fls[4]), FPbits(s, 0, 0, 0, 5, fls[5]) >>
 \* floor flags of the five packets of a case: all in use unless the case says otherwise
 Fls(cs) == IF "fls" \in DOMAIN cs THEN cs.fls ELSE [k \in 1..5 |-> Ones(cs.s.ch)]
 \* the same classes and the same residue values, but one classification word per partition instead of one per pair: an identical spectrum through a different layout
@@ -178,6 +186,12 @@ Twin(s) == IF Family = "residue" /\ c.seq THEN [s EXCEPT !.books[3] = SequenceVa
 Audio(s) == IF Family = "residue" THEN FullAudio(s, Fls(c)) ELSE IF Len(s.modes) >= 2 /\ s.ch >= 1 /\ s.ch <= 255 /\ \A i \in 1..Len(s.modes) : s.modes[i].map + 1 <= Len(s.maps) /\ \A m \in 1..Len(s.maps) : Len(s.maps[m].sfloor) >= 1 /\ \A j \in 1..Len(s.maps[m].sfloor) : s.maps[m].sfloor[j] + 1 <= Len(s.floors)
             THEN << [W |-> 0, f |-> SilentPacket(s, 0, 0, 0)], [W |-> 1, f |-> SilentPacket(s, 1, 0, 1)], [W |-> 1, f |-> SilentPacket(s, 1, 1, 0)], [W |-> 0, f |-> SilentPacket(s, 0, 0, 0)], [W |-> 0, f |-> SilentPacket(s, 0, 0, 0)] >>
             ELSE <<>>
+Init == /\ c \in Cases /\ done = FALSE
+        /\ cw = (IF Family = "residue" THEN CWOf(c.s) ELSE <<>>)
+        /\ cwt = (IF Family = "residue" /\ SetupOK(Twin(c.s)) THEN CWOf(Twin(c.s)) ELSE <<>>)
+Next == ~done /\ done' = TRUE /\ UNCHANGED <<c, cw, cwt>>
+Spec == Init /\ [][Next]_vars
+
 \* the generator's own sanity: the two well-formed families are well-formed, every mutation of the third is exactly one field away and most are ill-formed
 \* the strict reader inverts the writer: on the wire image of every generated set-up it recovers the record field for field (well-formed families), and
 \* it accepts whatever the validity predicate accepts (every family, mutations included)
